@@ -119,7 +119,7 @@ func (ex *exampleValidator) validateExampleValueValidAgainstSchema() *Result {
 					if red.HasErrorsOrWarnings() {
 						res.AddWarnings(exampleValueDoesNotValidateMsg(param.Name, param.In))
 						res.Merge(red)
-					} else if red.wantsRedeemOnMerge {
+					} else if red != nil && red.wantsRedeemOnMerge {
 						pools.poolOfResults.RedeemResult(red)
 					}
 				}
